@@ -17,10 +17,6 @@ Proof.
   - rewrite pool_put_heap, pool_put_stack, pool_put_mem. reflexivity.
 Qed.
 
-(* what the interpreter has established before a memory opcode runs: the
-   accessed range lies inside the (already expanded) memory *)
-Definition mem_pre (n : Z) (k : nat) (st : list Z) (m : list N) : Prop :=
-  (k <= length st)%nat /\ hd 0 st + n <= Z.of_nat (length m) /\ Z.of_nat (length m) < tt63.
 
 Lemma opMload_ok : body_correct globals body_opMload (mem_pre 32 1)
   (fun st m => (be_to_Z (firstn 32 (skipn (Z.to_nat (hd 0 st)) m)) :: tl st, m)).
